@@ -20,6 +20,7 @@ Def(n, u)   == [k |-> "d", n |-> n, u |-> u]
 RECURSIVE Strip(_)
 Strip(t) == CASE t.k = "a" -> Strip(t.u)
               [] t.k = "l" -> List(Strip(t.e))
+              [] t.k = "i" -> [k |-> "i", n |-> t.n, a |-> [j \in 1..Len(t.a) |-> Strip(t.a[j])]]       \* instantiated generic Kombination
               [] OTHER     -> t
 Equal(a, b) == Strip(a) = Strip(b)
 
